@@ -36,7 +36,8 @@ func init() {
 		{Tier: "direct", Bound: 1, Bound2: true},
 		{Tier: "conv1", Size: 2, Bound: 1},
 		{Tier: "conv2", Bound: 0},
-		{Tier: "chains3x2", Bound: 1, Bound2: true},
+		{Tier: "conv1", Size: 0, Bound: 1, Bound2: true},
+		{Tier: "chains3x2", Bound: 1},
 		{Tier: "chains4x2", Bound: 1},
 		{Tier: "chains3x3", Bound: 0},
 		{Tier: "forms", Bound: 1},
@@ -62,21 +63,21 @@ func init() {
 	}
 	Plans["C06"] = map[string][]Step{
 		"quick":    append(append([]Step{}, callQuick...), Step{Tier: "malformed", Bound: 0}, Step{Tier: "fails3x2", Bound: 0}, Step{Tier: "redef", Size: 0, Bound: 0}, Step{Tier: "redef", Size: 1, Bound: 0}, Step{Tier: "redefptr", Bound: 0}),
-		"thorough": append(append([]Step{}, callThorough...), Step{Tier: "malformed", Bound: 1}, Step{Tier: "fails3x3", Bound: 0}, Step{Tier: "failsM3x2", Bound: 0}, Step{Tier: "exact", Size: 0, Bound: 0}, Step{Tier: "redef", Size: 1, Bound: 0}, Step{Tier: "redef", Size: 0, Bound: 1}, Step{Tier: "redefptr", Bound: 1, Bound2: true}),
+		"thorough": append(append([]Step{}, callThorough...), Step{Tier: "malformed", Bound: 1}, Step{Tier: "fails3x3", Bound: 0}, Step{Tier: "failsM3x2", Bound: 0}, Step{Tier: "exact", Size: 0, Bound: 0}, Step{Tier: "redef", Size: 1, Bound: 0}, Step{Tier: "redef", Size: 0, Bound: 1}, Step{Tier: "redefptr", Bound: 1}),
 	}
 	Plans["C03"] = map[string][]Step{
 		"quick":    {{Tier: "exact", Size: 0, Bound: 1}},
-		"thorough": {{Tier: "exact", Size: 1, Bound: 1}, {Tier: "exact", Size: 0, Bound: 1, Bound2: true}},
+		"thorough": {{Tier: "exact", Size: 1, Bound: 1}, {Tier: "exact", Size: 2, Bound: 0}},
 	}
 	Plans["C04"] = map[string][]Step{
 		"quick":    {{Tier: "fails3x2", Bound: 1}, {Tier: "failsM3x2", Bound: 0}, {Tier: "failsnil3x2", Bound: 0}},
-		"thorough": {{Tier: "fails3x2", Bound: 1, Bound2: true}, {Tier: "fails3x3", Bound: 1}, {Tier: "failsM3x2", Bound: 1}, {Tier: "failsnil3x2", Bound: 1}},
+		"thorough": {{Tier: "fails3x2", Bound: 1}, {Tier: "fails3x3", Bound: 1}, {Tier: "failsM3x2", Bound: 1}, {Tier: "failsnil3x2", Bound: 1}},
 	}
 }
 
 func init() {
 	Plans["C08"] = map[string][]Step{
 		"quick":    {{Tier: "redef", Size: 0, Bound: 1}, {Tier: "redef", Size: 1, Bound: 0}, {Tier: "redefptr", Bound: 0}, {Tier: "alias-C08", Size: 4}},
-		"thorough": {{Tier: "redef", Size: 0, Bound: 1, Bound2: true}, {Tier: "redef", Size: 1, Bound: 1}, {Tier: "redef", Size: 2, Bound: 0}, {Tier: "redefptr", Bound: 1, Bound2: true}, {Tier: "alias-C08", Size: 5}},
+		"thorough": {{Tier: "redef", Size: 0, Bound: 1}, {Tier: "redef", Size: 1, Bound: 1}, {Tier: "redef", Size: 2, Bound: 0}, {Tier: "redefptr", Bound: 1}, {Tier: "alias-C08", Size: 5}},
 	}
 }
